@@ -178,8 +178,12 @@ def check_reads(t, g, rng, full=True):
             y = rng.randrange(H)
             z = rng.randint(x, W + 1)
             tt = rng.randint(y, H + 1)
-            form = rng.choice(["t", "s"])
+            form = rng.choice(["t", "s", "n"])
             area = (x, y, z, tt) if form == "t" else f"{TL.alpha(x)}{y + 1}:{TL.alpha(z)}{tt + 1}"
+            if form == "n":
+                # the same area with every in-range bound counted from the end (columns against the width,
+                # rows against the height)
+                area = (x - W, y - H, z - W if z < W else z, tt - H if tt < H else tt)
             av = [list(r) for r in t.get_values(area)]
             if not TL.matrix_equal(av, g.area(x, y, z, tt)):
                 bad("get_values(area)", {"area": area, "v": av}, g.area(x, y, z, tt))
